@@ -384,7 +384,18 @@ struct DomSim {
         const char* key = kKeys[q / 8];
         int val = (q / 2) % 4;
         bool copyKey = q % 2;
-        auto it = rn.AddMember(key, leaf_node<N>(val), al, copyKey);
+        typename N::MemberIterator it;
+        if (copyKey) {
+          // copyKey: the node must own its key afterwards - the caller's buffer is transient
+          size_t kl = std::strlen(key);
+          char* tmpk = (char*)std::malloc(kl ? kl : 1);
+          std::memcpy(tmpk, key, kl);
+          it = rn.AddMember(StringView(tmpk, kl), leaf_node<N>(val), al, true);
+          std::memset(tmpk, '#', kl ? kl : 1);
+          std::free(tmpk);
+        } else {
+          it = rn.AddMember(key, leaf_node<N>(val), al, false);
+        }
         mv.o.emplace_back(key, leaf_value(val));
         if (it != rn.MemberBegin() + (mv.o.size() - 1) || !(it->name == StringView(key)))
           ctx.violation("addmember_result", "dom_addmember_result", tr, "AddMember returned an iterator that is not the new last member");
@@ -426,7 +437,13 @@ struct DomSim {
       } else if (p == P_AddMember17) {
         static const char* k17[17] = {"m0", "m1", "m2", "m3", "m4", "m5", "m6", "m7", "m8", "m9", "m10", "m11", "m12", "m13", "m14", "m15", "m16"};
         for (int i = 0; i < 17; i++) {
-          rn.AddMember(k17[i], N(uint64_t(i)), al, i % 2);
+          if (i % 2) {
+            std::string tmpk = k17[i];
+            rn.AddMember(tmpk, N(uint64_t(i)), al, true);
+            tmpk.assign(tmpk.size(), '#');
+          } else {
+            rn.AddMember(k17[i], N(uint64_t(i)), al, false);
+          }
           mv.o.emplace_back(k17[i], ref::Value::mkU((uint64_t)i));
         }
       } else if (p < P_PopBack) {
